@@ -27,6 +27,22 @@ def insertSorted (x : String) : List String → List String
 
 def sortStrings (l : List String) : List String := l.foldr insertSorted []
 
+/-- `dl=<cap>:<q>:<fi>` against the configured limit (KiB/s): the bucket must hold exactly one
+second of the configured rate and refill within 1 % of it; `-` iff the limit is 0 (disabled).
+Returns the model's rendering and violations. -/
+def checkBucket (label : String) (kb : Nat) (impl : String) : String × List String :=
+  if kb = 0 then ("-", if impl = "-" then [] else [s!"C17 rate-limit-unexpected {label}={impl} limit=0"])
+  else
+    match (impl.splitOn ":").map parseNat! with
+    | [cap, q, fi] =>
+      let rate := kb * 1024
+      let diff := if 1000000000 * q ≥ rate * fi then 1000000000 * q - rate * fi else rate * fi - 1000000000 * q
+      let okRate := q > 0 ∧ fi > 0 ∧ diff * 100 ≤ rate * fi
+      let viol := (if cap > rate then [s!"C17 rate-limit-burst {label} capacity={cap} one-second={rate}"] else []) ++
+        (if okRate then [] else [s!"C17 rate-limit-rate {label} q={q} fi={fi} configured={rate}"])
+      (if cap = rate ∧ okRate then impl else s!"{rate}:q:fi(within 1%)", viol)
+    | _ => (s!"{kb * 1024}:q:fi", [s!"C17 rate-limit-missing {label}={impl} limit={kb}"])
+
 def step (d : DS) (op implObs : String) : DS × String × List String :=
   let toks := words op
   let name := toks.headD ""
@@ -36,7 +52,13 @@ def step (d : DS) (op implObs : String) : DS × String × List String :=
   | "session" =>
     match d.cap with
     | some _ => (d, "refused", [])
-    | none => ({ d with cap := some (kvInt toks "cap") }, "ok", panicViol "op=session")
+    | none =>
+      let it := words implObs
+      let (dl, v1) := checkBucket "dl" (kvNat toks "dl") (kvStr it "dl")
+      let (ul, v2) := checkBucket "ul" (kvNat toks "ul") (kvStr it "ul")
+      let v := if implObs.startsWith "ok" then v1 ++ v2 else []
+      let d := if kvNat toks "dl" > 0 ∨ kvNat toks "ul" > 0 then d.tag "branch:rate-limited" else d
+      ({ d with cap := some (kvInt toks "cap") }, s!"ok dl={dl} ul={ul}", panicViol "op=session" ++ v)
   | "add" =>
     match d.cap with
     | none => (d, "nosession", [])
